@@ -196,6 +196,8 @@ def mixed_enum_membership(out):
 
 
 def run(ctx, out):
+    import families as _famsm
+    out.evaluations += _famsm.struct_mapping_family(out, PROP)
     out.evaluations += mixed_enum_membership(out)
     out.evaluations += byteslike_never_elementwise(out)
     import families as _fam2
